@@ -1233,6 +1233,12 @@ func (as *AbacoSource) distributeData(buffersMsg AbacoBuffersType) *dataBlock {
 	return block
 }
 
+// abortStart releases the ring buffers and UDP sockets opened by Sample when a later step of
+// Start fails. Like the end of a run, it leaves the source with no producers: Configure it again.
+func (as *AbacoSource) abortStart() {
+	as.closeDevices()
+}
+
 // closeDevices ends closes the ring buffers of all active AbacoRing objects and all UDP servers.
 func (as *AbacoSource) closeDevices() error {
 	for _, pp := range as.producers {
